@@ -4,8 +4,9 @@ from .. import core, pilgen as PG
 
 MODULES = ['DsdVerif.Props.C13']
 GEN_FILES = ['Grammars']
-THEOREM_NAMES = []
-THEOREMS = []
+THEOREM_NAMES = ['run_fuel_mono', 'run_fuel_mono_false', 'word_munch', 'expandTabs_id', 'dl_domain_rt', 'dl_domain_dtype_rt', 'sl_domain_rt',
+                 'sl_domain_len_rt', 'dl_domain_comment_rt', 'dl_domain_missing_assign_rejected']
+THEOREMS = ['Dsd.C13.' + t for t in THEOREM_NAMES]
 ASSUMPTIONS = [
     'pyparsing 3.3.2 is modelled by a hand-written interpreter (Model/Pyparsing.lean: whitespace/comment skipping, Word maximal munch, '
     'Literal prefix match, ordered choice, greedy repetition, Combine adjacency, LineEnd at end of input); its agreement with the real '
@@ -16,15 +17,17 @@ ASSUMPTIONS = [
     'and comment lines, LF or CRLF; renderings shared by two different trees (sequence x = short) are not legal layouts',
 ]
 MANIFEST = {
-    'text': 'Partial. The grammar is regenerated from pil_parser.py into a Lean term interpreted by a model of pyparsing; the correspondence '
-            'stream compares the model parse with pyparsing on grammar-generated statements of every kind / option / alias in random '
-            'layouts, on documents, on four negative families and on randomly mutated texts; the round-trip property itself '
-            '(parse(render(tree)) = tree, document = concatenation, file = string, independence of earlier parser use, rejection of the '
-            'negative families) is decided on the real parser by a reference renderer. Lean theorems about the interpreter present at this '
-            'commit are listed in the evidence; statement-level round-trip theorems are not claimed unless listed there.',
-    'note': 'pyparsing semantics is modelled by hand and tied by differential testing only; the keyword-prefix ambiguity of unnamed '
-            'statement keywords is a recorded known finding.',
-    'technique': 'Lean 4 interpreter model of pyparsing over a grammar regenerated from source; correspondence check; reference renderer oracle',
+    'text': 'Partial. The grammar is regenerated from pil_parser.py into a Lean term interpreted by a model of pyparsing. Proved for the '
+            'regenerated grammar, for identifiers / numbers / constraints of any length and any amount of blanks: dl_domain_rt (three '
+            'keyword aliases, both assignment signs, optional star), dl_domain_dtype_rt, sl_domain_rt, sl_domain_len_rt, '
+            'dl_domain_comment_rt (trailing comment, no final newline), dl_domain_missing_assign_rejected, plus word_munch and '
+            'expandTabs_id. The other statement kinds (strands, both complex notations, kernel patterns, reactions, macrostates), '
+            'document concatenation, file = string and history independence are NOT theorems: they are decided on the real parser by a '
+            'reference renderer over grammar-generated token trees in random layouts, and the model is compared with pyparsing on the '
+            'same texts, four negative families and random mutations.',
+    'note': 'pyparsing semantics is modelled by hand and tied by differential testing only; keyword-prefixed kernel-complex names are '
+            'recorded known findings (keys keyword-prefix:<kw>).',
+    'technique': 'Lean 4 symbolic execution of a pyparsing interpreter over the grammar regenerated from source; correspondence check; reference renderer oracle',
 }
 
 
